@@ -52,6 +52,38 @@ func hC13lock(nOpen int, skip int) {
 	vCover("C13.lock.done")
 }
 
+// H_C13_lock1: a single opener against the releasing owner. It can only win on a
+// lock file it created itself (the owner holds the old one until it is unlinked
+// and closed), so a successful acquisition must NOT report an existing lock
+// file - otherwise a cleanly closed database would be recovered.
+func H_C13_lock1() {
+	vFlag("fsYield", 1)
+	if !vSymbolic() {
+		verifYieldFn = func(p int) { vYield() }
+	}
+	name := "c13lock1"
+	owner, existed, err := createLockFile(name, os.FileMode(0644))
+	vAssert(err == nil && !existed, "C13.lock1.first-acquire")
+	if err != nil {
+		return
+	}
+	vGo(func() {
+		vAssert(owner.Unlock() == nil, "C13.lock1.unlock")
+	})
+	vGo(func() {
+		l, ex, err := createLockFile(name, os.FileMode(0644))
+		if err == nil {
+			vAssert(!ex, "C13.lock1.clean-release-is-not-reported-as-unclean-shutdown")
+			vCover("C13.lock1.acquired-after-release")
+			_ = l
+		} else {
+			vAssert(err == os.ErrExist, "C13.lock1.failed-attempt-reports-locked")
+		}
+	})
+	vJoin()
+	vCover("C13.lock1.done")
+}
+
 func H_C13_lock2() { hC13lock(2, 0) }
 
 // three openers: the point between flock and the identity check is not a scheduling point (state budget)
